@@ -201,7 +201,10 @@ def gitignored_paths(folder_io, file_io):
 
 def expand_relative_ignore_paths(folder_io, relative_paths):
     curr_path = folder_io.path
-    return {os.path.join(curr_path, p[1]) for p in relative_paths if curr_path.startswith(p[0])}
+    return {
+        os.path.join(curr_path, p[1]) for p in relative_paths
+        if curr_path == p[0] or curr_path.startswith(p[0] + os.path.sep)
+    }
 
 
 def recurse_find_python_folders_and_files(folder_io, except_paths=()):
